@@ -25,7 +25,8 @@ EXPLANATION = (
     'EngineMainThread::setClearHistory; History::init and KillerTable::clear write every member of every cell (loop bounds equal '
     'the array extents by constant evaluation); Search::iterativeDeepening must-calls KillerTable::clear before the first search '
     'call; WorkerThread::CommHandler::initSearch clears killers and honours clearHistory; doSearch hands the flag on and resets it.'
-    ' The forward of the contempt to the table in Search::setWhiteContempt may depend on the thread number only.')
+    ' The forward of the contempt to the table in Search::setWhiteContempt may depend on the thread number only.'
+    ' Added later; (4) clear() zeroes exactly the slots [0, tableSize): clear() itself - branch, chunk loop, worker closure, memset arguments - is interpreted for every table size the Hash option can produce (1..1024 MB quick, ..4096 MB thorough, and the halved fall-back sizes).')
 UNDECIDED = ('equality of node counts as such; influence of state outside these classes (static-storage writers reachable from '
              'the search are listed under coverage.static_storage_writers for review, not judged); hash-key collisions in the '
              'evaluation cache.')
@@ -52,6 +53,7 @@ def run(fb, rep, tier):
     # function of its key, otherwise what earlier searches cached changes later results (shared with C07.3)
     from . import C07
     C07.c3_cache(fb, rep, clause='C14.3')
+    c4_clear_covers_table(fb, rep, tier)
     surv = fb.find1('EngineControl::EngineControl')
     if surv is not None:
         lam_clears = set()
@@ -458,3 +460,89 @@ def _loop_bound(func, var):
                 if isinstance(r, dict) and 'cv' in r:
                     return r['cv']
     return None
+
+
+# ----------------------------------------------------------------------------- .4
+
+def c4_clear_covers_table(fb, rep, tier):
+    """K12 coverage by finite evaluation: TranspositionTable::clear() zeroes the slots in pieces (four worker chunks
+    for large tables).  The body of clear() - its branch, its chunk loop, the closure each worker runs and the
+    arguments of memset - is interpreted for every table size the Hash option can produce (MB x 2^20 / slot size, and
+    the halved sizes setupTT falls back to when allocation fails); the zeroed intervals must tile [0, tableSize)
+    exactly: nothing left uncleared (a stale entry survives Clear Hash), nothing outside the table."""
+    from ..peval import Evaluator, Unknown, Closure
+    clause = 'C14.4'
+    TT = 'TranspositionTable'
+    f = fb.find1(TT + '::clear')
+    if rep.need(clause, f, TT + '::clear') is None:
+        return
+    slot = (fb.record(TT + '::TTEntryStorage') or {}).get('size')
+    hp = fb.globals.get('UciParams::hash')
+    if rep.need(clause, slot, 'size of TTEntryStorage') is None:
+        return
+    intervals = []
+
+    def stub_memset(ev, t, env, depth):
+        a = t.get('args', [])
+        base = a[0]
+        idx = None
+        for n in walk(base):
+            if n.get('k') == 'idx' and ap(n.get('b')) == 'this.table':
+                idx = ev.eval(n.get('i'), env, depth)
+        if idx is None:
+            raise Unknown('memset target is not &table[i]')
+        if ev.eval(a[1], env, depth) != 0:
+            raise Unknown('memset value is not 0')
+        nbytes = ev.eval(a[2], env, depth)
+        intervals.append((idx * slot, idx * slot + nbytes))
+        return 0
+
+    def stub_add_task(ev, t, env, depth):
+        clo = ev.eval(t['args'][0], env, depth)
+        if not isinstance(clo, Closure):
+            raise Unknown('task is not a closure')
+        ev.invoke(clo, [0], depth)
+        return 0
+
+    def stub_nop(ev, t, env, depth):
+        return 0
+    ev = Evaluator(fb, stubs={'memset': stub_memset, 'std::memset': stub_memset, 'ThreadPool::addTask': stub_add_task, 'ThreadPool::getAllResults': stub_nop,
+                              TT + '::setUsedSize': stub_nop, 'Numa::bindThread': stub_nop, 'std::unique_ptr::reset': stub_nop})
+    max_mb = 4096 if tier == 'thorough' else 1024
+    sizes = set()
+    for mb in range(1, max_mb + 1):
+        n = mb * (1 << 20) // slot
+        sizes.add(n)
+        if mb % 7 == 0 or mb < 64:
+            for j in range(1, 5):
+                sizes.add(max(4, (n >> j) & ~3))
+    for k in range(10, 37):
+        sizes.add((1 << k) // slot * 1 if (1 << k) >= slot * 4 else 4)
+    bad = []
+    n_eval = 0
+    n_chunked = 0
+    try:
+        for T in sorted(sizes):
+            del intervals[:]
+            ev.run(f, {'this.tableSize': T})
+            n_eval += 1
+            if len(intervals) > 1:
+                n_chunked += 1
+            iv = sorted(intervals)
+            pos_ = 0
+            ok = True
+            for a, b_ in iv:
+                if a != pos_ or b_ < a:
+                    ok = False
+                    break
+                pos_ = b_
+            if not ok or pos_ != T * slot:
+                if len(bad) < 3:
+                    bad.append((T, [(a // slot, b_ // slot) for a, b_ in iv][:5]))
+    except Unknown as ex:
+        rep.broken(clause, 'clear() is not evaluable for table size %s: %s' % (T, ex))
+        return
+    rep.floor(clause, 'table sizes for which clear() was evaluated', n_eval, 1000)
+    rep.floor(clause, 'of these, sizes cleared in several chunks', n_chunked, 500)
+    rep.ob(clause, 'K12 coverage', 'clear() zeroes exactly the slots [0, tableSize) for every table size the Hash option can produce', not bad, f.where,
+           '%d sizes evaluated (Hash 1..%d MB and allocation fall-backs), %d of them chunked; first sizes not tiled (entries: intervals): %s' % (n_eval, max_mb, n_chunked, bad), f.sname)
